@@ -71,4 +71,29 @@ def getStoich (c : Content) (vars : Option (List (Name × Rat))) (t : Rat) :
   let dep ← getArgsEnv c cache (resolveVars cache vars) t
   overlayDynAll dep cache.dynStoich cache.stoich
 
+/-! ### time-course forms: the pointwise forms mapped over the rows of a table -/
+
+/-- `get_args_time_course(variables)`: one `_get_args` per row (index = time), `time` column dropped -/
+def getArgsTC (c : Content) (rows : List (Rat × List (Name × Rat))) :
+    Except Err (List (List (Name × Rat))) := do
+  let cache ← createCache c
+  rows.mapM fun (t, vars) => do
+    let env ← getArgsEnv c cache vars t
+    pure ((envToDict (omKeys c.data) env).filter fun kv => kv.1 != "time")
+
+/-- `get_fluxes_time_course(variables)` -/
+def getFluxesTC (c : Content) (rows : List (Rat × List (Name × Rat))) :
+    Except Err (List (List (Name × Rat))) := do
+  let cache ← createCache c
+  rows.mapM fun (t, vars) => do
+    let env ← getArgsEnv c cache vars t
+    c.fluxNames.mapM fun k => do pure (k, ← env.get k)
+
+/-- `get_right_hand_side_time_course(args)`: `_get_right_hand_side` per row of an argument table
+    with `{"time": index} | row` as the argument dict (after the repair of F-C01-1) -/
+def getRhsTC (c : Content) (argRows : List (Rat × List (Name × Rat))) :
+    Except Err (List (List (Name × Rat))) := do
+  let cache ← createCache c
+  argRows.mapM fun (t, row) => rhsFromArgs cache (omKeys c.vars) (row ++ [("time", t)])
+
 end Mxl
